@@ -113,3 +113,21 @@ pub fn ctl_debug_format(i: &syn::Ident) -> String {
 pub fn ctl_display_format_ok(i: &syn::Ident) -> String {
     format!("{}", i)
 }
+
+// ---- control for the option-presence rule (the option wrapper type is recognised by path) ----
+pub mod opt {
+    #[derive(Clone, Copy)]
+    pub struct SpanOpt<T>(pub T);
+}
+pub fn ctl_opt_presence(o: &Option<opt::SpanOpt<bool>>) -> bool {
+    o.is_some()
+}
+pub fn ctl_opt_absence(o: Option<opt::SpanOpt<bool>>) -> bool {
+    o.is_none()
+}
+pub fn ctl_opt_value_ok(o: Option<opt::SpanOpt<bool>>) -> bool {
+    match o {
+        Some(v) => v.0,
+        None => false,
+    }
+}
